@@ -66,6 +66,20 @@ def run_items(run, items, fname, rng, trials=10, tol=1e-8):
         else:
             # symbolic execution left the traced fragment through a numeric routine (numerical KAK path)
             run.not_proved.append(f"{it.name}: numeric path ({type(e).__name__}); tolerance test only, passed")
+    # The theorems are about the path the SYMBOLIC execution took.  Tie it to the path floats take
+    # (type- or value-dependent branches: `isinstance(theta, float) and abs(sin(theta/2)) < tol`): the real
+    # float execution must give the expected operator at special values (multiples of pi/4 ...) and at
+    # random points.  Test level; a failure is a concrete input.
+    swept = 0
+    for name_, it in meta.items():
+        w = numeric_search(it, rng, 2, tol, sweep=True)
+        swept += 1
+        if w:
+            run.refuted.append("float_path_" + name_)
+            run.find(it.key, f"{name_}: float execution contradicts the expected operator"
+                     + (f" ({w['error']})" if "error" in w else ""), {**it.meta, **w})
+    run.notes.setdefault("float_path_sweeps", 0)
+    run.notes["float_path_sweeps"] += swept
     if not terms:
         return
     res, okc = run.prove_bools(fname, HEADER, terms, timeout=1500)
@@ -108,8 +122,17 @@ def candidate_values(it, rng, trials):
     return out
 
 
-def numeric_search(it, rng, trials=10, tol=1e-8):
+def valid_params(it, vals):
+    """constructor domain restrictions of the catalogue classes (MS: 0 <= theta <= pi/2)"""
+    if it.meta.get("class") == "MS" and len(vals) == 3:
+        return 0.0 <= vals[2] <= math.pi / 2
+    return True
+
+
+def numeric_search(it, rng, trials=10, tol=1e-8, sweep=False):
     for vals in candidate_values(it, rng, trials):
+        if not valid_params(it, vals):
+            continue
         try:
             lhs, rhs, n = it.builder(vals)
             A = qtrace.full_unitary(lhs, n)
